@@ -543,6 +543,16 @@ fn gen_bb_case(cur: &mut Cursor) -> Value {
         3 => a = 1u64 << cur.below(64) | 1u64 << cur.below(64),
         _ => {}
     }
+    // extreme sets: empty, full, one element, all but one
+    match cur.below(24) {
+        0 => a = 0,
+        1 => a = u64::MAX,
+        2 => a = 1u64 << cur.below(64),
+        3 => a = !(1u64 << cur.below(64)),
+        4 => b = u64::MAX,
+        5 => b = 0,
+        _ => {}
+    }
     json!({"a": format!("{:#x}", a), "b": format!("{:#x}", b), "x": format!("{:#x}", cur.u64()), "sq": cur.below(64), "by": cur.below(64)})
 }
 
@@ -554,6 +564,8 @@ fn bb_check(case: &Value, stats: &mut Stats) -> CheckResult {
     let (a, b, x) = (hex(&case["a"]), hex(&case["b"]), hex(&case["x"]));
     bitboard_ops(a, b, x, case["sq"].as_u64().unwrap_or(0) as usize % 64, case["by"].as_u64().unwrap_or(0) as usize % 64)?;
     stats.label_if(a.count_ones() >= 2, "two_or_more_elements");
+    stats.label_if(a == u64::MAX, "full_set");
+    stats.label_if(a == 0, "empty_set");
     if a.count_ones() >= 2 {
         stats.nontrivial(&(a, b));
     }
@@ -586,6 +598,15 @@ fn band_driver(ctx: &RunCtx, stats: &mut Stats, rep: &mut Reporter) {
         }
     });
     stats.sample(json!({"a": "0x8001", "band": 0}));
+    // the extreme sets, with several deposit words each
+    for a in [0u64, u64::MAX, 1, 1u64 << 63, !1u64, !(1u64 << 63), u64::MAX >> 1, u64::MAX << 1] {
+        for x in [0u64, 1, u64::MAX, 0xdead_beef_0123_4567, 1u64 << 63] {
+            stats.count(1);
+            if let Err(f) = bitboard_ops(a, !a, x, 0, 63).and_then(|_| bitboard_ops(a, a, x, 63, 1)) {
+                rep(json!({"a": format!("{:#x}", a), "b": format!("{:#x}", !a), "x": format!("{:#x}", x), "sq": 0, "by": 63}), f);
+            }
+        }
+    }
 }
 
 pub fn property() -> Property {
@@ -606,7 +627,7 @@ pub fn property() -> Property {
             SubCheck { name: "short_strings", driver: Driver::Custom { run: str_driver }, check: str_check, configs: Configs::Both, required: &["coord_ok", "color_ok", "cell_ok", "rights_ok", "non_ascii"], regressions: &[], exhaustive: true },
             SubCheck {
                 name: "generated_strings",
-                driver: Driver::Generated { gen: gen_str_case, genome_len: 32, quick: 1_500_000, thorough: 40_000_000 },
+                driver: Driver::Generated { gen: gen_str_case, genome_len: 32, quick: 4_500_000, thorough: 40_000_000 },
                 check: str_check,
                 configs: Configs::ReleaseOnly,
                 required: &["coord_ok", "rights_ok"],
@@ -617,10 +638,10 @@ pub fn property() -> Property {
             SubCheck { name: "bitboard_bands", driver: Driver::Custom { run: band_driver }, check: bb_check, configs: Configs::Both, required: &[], regressions: &[], exhaustive: true },
             SubCheck {
                 name: "bitboard_random",
-                driver: Driver::Generated { gen: gen_bb_case, genome_len: 64, quick: 1_500_000, thorough: 40_000_000 },
+                driver: Driver::Generated { gen: gen_bb_case, genome_len: 64, quick: 4_500_000, thorough: 40_000_000 },
                 check: bb_check,
                 configs: Configs::Both,
-                required: &["two_or_more_elements"],
+                required: &["two_or_more_elements", "full_set", "empty_set"],
                 regressions: &[],
                 exhaustive: false,
             },
